@@ -316,6 +316,8 @@ PROPS["C14"] = {
     "rule": "valid-by-construction, single-violation and grammar-random documents, each with one rewrite: permutation of definitions / selections (60% of the selection lists) / arguments / variable definitions, consistent renaming of operations / fragments (with their spreads) / variables (definitions and all uses) / aliases (response-key equalities preserved), wrapping a part of a selection list in an untyped inline fragment, replacing every directive-free spread of a non-recursive fragment by the typed inline fragment (dropping the definition when unused), print and re-parse with the parser's own printer (compared only when the re-parsed AST equals the original up to positions), permutation of the schema's definitions and of fields / arguments / enum values / union members / interface lists; original and rewritten input validated with the default plan; required: same accept/reject and (except for wrapping / inlining) same set of reporting rules; both runs also compared with the extracted model. distinct = distinct (schema, document, rewrite); non-trivial = the document is rejected (some rule reports) or the rewrite is an inlining / wrapping",
     "compare_model": c14_compare_model,
     "compare_spec": c14_compare_spec,
+    # the property relates two runs of the implementation: a DIFF line is a violation by itself
+    "impl_oracle": lambda il: not any(l in ("VERDICT DIFF", "RULES DIFF") for l in il),
     "nontrivial": lambda il, meta: any("reject" in l for l in il[:1]) or meta.get("note") in ("inline-spread", "wrap-inline"),
     "partial": "the external printer (Display of documents) is outside the model; the invariance theorems are about the specification predicates and the model, the implementation is compared run against run",
 }
